@@ -8,8 +8,9 @@ ALL inputs (no bound on length, nesting, steps or heap size), is that each model
 where the Go code can fault either cannot fault or faults only under a named, decidable
 condition:
 
-* error rendering (`FriendlyErrorMessage`, `GetLineText`) over every token span the lexer's
-  position registers can produce;
+* error rendering: `FriendlyErrorMessage` over ALL spans (same line or not — unguarded since
+  the repair of `C03-friendly-multiline-span`), `GetLineText` over every token position the
+  lexer's registers can produce;
 * the VM's fixed arrays: an out-of-range index is always the recovered error;
 * `Inspect` terminates on every heap, cyclic ones included; `Equals` does not (the finding),
   and does on every heap without cycles.
@@ -40,46 +41,122 @@ theorem same_line_col_le (cs : Array Nat) (k : Nat) :
       omega
     · omega
 
-theorem friendly_ok (sc tc : Int) (h0 : 0 ≤ sc) (h : sc ≤ tc) :
-    friendly sc tc = .ok (sc.toNat, (tc - sc + 1).toNat) := by
+/-- **`FriendlyErrorMessage` cannot panic, whatever span it is given** (`caret_nonneg`, the
+    full statement; it carried the guard `singleLineSpan` until the repair
+    `fix: keep the caret line of a parse error inside the quoted line`).  For ALL integers —
+    start line/column, end line/column, number of runes of the quoted line; no relation
+    between them is assumed, so every `ParserError` a host can build is covered, not only
+    those the parser builds — both `strings.Repeat` counts are non-negative and there is at
+    least one caret. -/
+theorem C03_caret_nonneg (startLine startCol endLine endCol lineLen : Int) :
+    ∃ pad n, friendly startLine startCol endLine endCol lineLen = .ok (pad, n) ∧ 1 ≤ n := by
+  have hp : 0 ≤ padLen startCol := by
+    unfold padLen; simp only; split <;> omega
+  have hn : 1 ≤ caretLen startLine startCol endLine endCol lineLen := by
+    unfold caretLen; simp only; split <;> omega
+  refine ⟨(padLen startCol).toNat, (caretLen startLine startCol endLine endCol lineLen).toNat, ?_, ?_⟩
+  · unfold friendly
+    simp only
+    rw [if_neg (by omega), if_neg (by omega)]
+  · omega
+
+/-- The statement that was false before the repair (then `def C03_full_caret : Prop` with a
+    counterexample), now a theorem: `FriendlyErrorMessage` never panics, whatever span
+    (start = the lexer at rune `a`, end = `k` characters later, on the same line or not) an
+    error carries and whatever line it quotes. -/
+theorem C03_full_caret (cs : Array Nat) (a k : Nat) (lineLen : Int) :
+    (friendly (stateAt cs a).line (stateAt cs a).col
+      (readChars cs k (stateAt cs a)).line (readChars cs k (stateAt cs a)).col lineLen).isPanic = false := by
+  obtain ⟨pad, n, h, _⟩ := C03_caret_nonneg (stateAt cs a).line (stateAt cs a).col
+    (readChars cs k (stateAt cs a)).line (readChars cs k (stateAt cs a)).col lineLen
+  rw [h]; rfl
+
+/-- a span that ends on a later line is underlined from its start column to the end of the
+    quoted line: for every start column `0 ≤ sc` inside a quoted line of `lineLen > sc` runes,
+    padding and carets together are exactly as long as the quoted line -/
+theorem friendly_multi_line (sl sc el ec lineLen : Int) (hl : el ≠ sl) (h0 : 0 ≤ sc) (h1 : sc < lineLen) :
+    friendly sl sc el ec lineLen = .ok (sc.toNat, (lineLen - sc).toNat) := by
+  have hp : padLen sc = sc := by
+    unfold padLen; simp only; split <;> omega
+  have hn : caretLen sl sc el ec lineLen = lineLen - sc := by
+    unfold caretLen; simp only; rw [if_pos hl, hp]; split <;> omega
   unfold friendly
-  have e1 : sc + 1 - 1 = sc := by omega
-  have e2 : tc + 1 - (sc + 1) + 1 = tc - sc + 1 := by omega
-  simp only [e1, e2]
+  simp only [hp, hn]
   rw [if_neg (by omega), if_neg (by omega)]
 
-/-- FULL statement (false on the unchanged tree): `FriendlyErrorMessage` never panics,
-    whatever span (start = the lexer at rune `a`, end = `k` characters later) an error
-    carries. -/
-def C03_full_caret : Prop :=
-  ∀ (cs : Array Nat) (a k : Nat),
-    (friendly (stateAt cs a).col (readChars cs k (stateAt cs a)).col).isPanic = false
-
-/-- the guard: the span ends on the line it starts on -/
+/-- the guard the partial theorem carried before the repair: the span ends on the line it
+    starts on -/
 def singleLineSpan (cs : Array Nat) (a k : Nat) : Bool :=
   (readChars cs k (stateAt cs a)).line == (stateAt cs a).line
 
 /-- three spaces, then a backtick string that contains a newline:  `␣␣␣`a⏎``  -/
 def twoLineBacktick : Array Nat := #[32, 32, 32, 96, 97, 10, 96]
 
-/-- COUNTEREXAMPLE: the backtick token starts in column 3 of line 0 and ends in column 0 of
-    line 1; `colEnd - colStart + 1 = -2` and `strings.Repeat` panics. -/
-theorem C03_counterexample_caret : ¬ C03_full_caret := by
+/-- the pre-fix counterexample renders now: the backtick token of `twoLineBacktick` starts in
+    column 3 of line 0 (quoted line `␣␣␣`a`, 5 runes) and ends in column 0 of line 1:
+    3 blanks and 2 carets -/
+example : friendly (stateAt twoLineBacktick 3).line (stateAt twoLineBacktick 3).col
+    (readChars twoLineBacktick 3 (stateAt twoLineBacktick 3)).line
+    (readChars twoLineBacktick 3 (stateAt twoLineBacktick 3)).col 5 = .ok (3, 2) := by decide
+
+/-! ### Historical: the caret computation before the repair -/
+
+theorem preFixFriendly_ok (sc tc : Int) (h0 : 0 ≤ sc) (h : sc ≤ tc) :
+    preFixFriendly sc tc = .ok (sc.toNat, (tc - sc + 1).toNat) := by
+  unfold preFixFriendly
+  have e1 : sc + 1 - 1 = sc := by omega
+  have e2 : tc + 1 - (sc + 1) + 1 = tc - sc + 1 := by omega
+  simp only [e1, e2]
+  rw [if_neg (by omega), if_neg (by omega)]
+
+/-- the full statement about the PRE-FIX computation (false): it never panics, whatever span
+    (start = the lexer at rune `a`, end = `k` characters later) an error carries. -/
+def C03_preFix_full_caret : Prop :=
+  ∀ (cs : Array Nat) (a k : Nat),
+    (preFixFriendly (stateAt cs a).col (readChars cs k (stateAt cs a)).col).isPanic = false
+
+/-- HISTORICAL (finding `C03-friendly-multiline-span`, repaired): before the fix the backtick
+    token of `twoLineBacktick`, which starts in column 3 of line 0 and ends in column 0 of
+    line 1, gave `colEnd - colStart + 1 = -2` and `strings.Repeat` panicked. -/
+theorem C03_fixed_caret_panicked : ¬ C03_preFix_full_caret := by
   intro h
   have := h twoLineBacktick 3 3
   revert this
   decide
 
-/-- PARTIAL (caret_nonneg_partial): for every input, every token start and every span that
-    stays on one line, `FriendlyErrorMessage` computes a non-negative padding and at least
-    one caret — it cannot panic. -/
-theorem C03_partial_caret (cs : Array Nat) (a k : Nat) (hg : singleLineSpan cs a k = true) :
-    ∃ pad n, friendly (stateAt cs a).col (readChars cs k (stateAt cs a)).col = .ok (pad, n) ∧ 1 ≤ n := by
+/-- HISTORICAL: what could be proved of the pre-fix computation — for every input, every
+    token start and every span that stays on one line it computed a non-negative padding and
+    at least one caret. -/
+theorem C03_preFix_partial_caret (cs : Array Nat) (a k : Nat) (hg : singleLineSpan cs a k = true) :
+    ∃ pad n, preFixFriendly (stateAt cs a).col (readChars cs k (stateAt cs a)).col = .ok (pad, n) ∧ 1 ≤ n := by
   simp only [singleLineSpan, beq_iff_eq] at hg
   have h0 := stateAt_col_nonneg cs a
   have h1 := same_line_col_le cs k (stateAt cs a) hg
-  refine ⟨_, _, friendly_ok _ _ h0 h1, ?_⟩
+  refine ⟨_, _, preFixFriendly_ok _ _ h0 h1, ?_⟩
   omega
+
+/-- **The repair changes nothing inside one line.**  For every input, every token start and
+    every span that stays on one line (exactly the spans that rendered before), the repaired
+    `FriendlyErrorMessage` draws the padding and the carets the old one drew, whatever line
+    it quotes. -/
+theorem friendly_single_line_unchanged (cs : Array Nat) (a k : Nat) (lineLen : Int)
+    (hg : singleLineSpan cs a k = true) :
+    friendly (stateAt cs a).line (stateAt cs a).col
+      (readChars cs k (stateAt cs a)).line (readChars cs k (stateAt cs a)).col lineLen
+    = preFixFriendly (stateAt cs a).col (readChars cs k (stateAt cs a)).col := by
+  simp only [singleLineSpan, beq_iff_eq] at hg
+  have h0 := stateAt_col_nonneg cs a
+  have h1 := same_line_col_le cs k (stateAt cs a) hg
+  rw [preFixFriendly_ok _ _ h0 h1]
+  have hp : padLen (stateAt cs a).col = (stateAt cs a).col := by
+    unfold padLen; simp only; split <;> omega
+  have hn : caretLen (stateAt cs a).line (stateAt cs a).col (readChars cs k (stateAt cs a)).line
+      (readChars cs k (stateAt cs a)).col lineLen
+      = (readChars cs k (stateAt cs a)).col - (stateAt cs a).col + 1 := by
+    unfold caretLen; simp only; rw [if_neg (by omega)]; split <;> omega
+  unfold friendly
+  simp only [hp, hn]
+  rw [if_neg (by omega), if_neg (by omega)]
 
 example : singleLineSpan #[120, 32, 58, 61, 32, 49, 50, 51] 5 2 = true := by decide
 example : singleLineSpan twoLineBacktick 3 3 = false := by decide
